@@ -48,8 +48,10 @@ Tags(r, log) ==
        ELSE IF UnmountOrder(u) THEN {"UnmountOrderTrue/profile-is-not-in-mount-order"}
             ELSE {"UnmountOrderTrue"})
  \cup (IF UnmountStrandsNothing(u, log) THEN {}
-       ELSE IF \A pr \in UnmountStrandsBad(u, log) : log[pr[2]].g = "overname"
-            THEN {"UnmountOrder.entry-beneath-stays-kept/kept-entry-is-overname"}
+       ELSE IF \A pr \in UnmountStrandsBad(u, log) : log[pr[1]].g = "overname" \/ log[pr[2]].g = "overname"
+            THEN {"UnmountOrder.entry-beneath-stays-kept/overname-entry-involved"}
+       ELSE IF \A pr \in UnmountStrandsBad(u, log) : \E k \in Keeps(u) : u.plan[k].e.p = log[pr[1]].p
+            THEN {"UnmountOrder.entry-beneath-stays-kept/entry-in-same-directory-kept"}
             ELSE {"UnmountOrder.entry-beneath-stays-kept"})
  \cup (IF MountOrder(u) THEN {}
        ELSE IF \A pr \in MountOrderBad(u) : u.plan[pr[1]].e.k = "ensure-dir"
